@@ -1,0 +1,22 @@
+//go:build verif
+
+package ech
+
+import (
+	"context"
+	"time"
+)
+
+// VerifSetClock replaces the package clock used by the resolver cache and
+// returns a function that restores it. Verification builds only.
+func VerifSetClock(f func() time.Time) (restore func()) {
+	old := timeNow
+	timeNow = f
+	return func() { timeNow = old }
+}
+
+// VerifContextWithResolveResult returns a context that makes Dialer.Dial use
+// res for every address, the way Transport does. Verification builds only.
+func VerifContextWithResolveResult(ctx context.Context, host string, res ResolveResult) context.Context {
+	return context.WithValue(ctx, transportResolverKey, &transportResolver{host: host, result: res})
+}
